@@ -20,6 +20,7 @@
 #include "num_hs_ghost.h"
 struct hs_spec g_hs;
 size_t g_hs_len;
+uint64_t g_hs_sz, g_hs_mult;
 #include "util/humansize.c"
 
 void
